@@ -18,6 +18,18 @@ package main
 //	apiCtxErrReturned       handshakeContext assigns `ret = ctxErr`
 //	apiInterrupterCloses    the interrupter goroutine calls `c.conn.Close()` on `<-handshakeCtx.Done()`
 //	apiCloseWriteNeedsHandshake CloseWrite starts with `if !c.handshakeComplete() { return errEarlyCloseWrite }`
+//	apiCloseNotifyStmts     the statements of Conn.closeNotify, in order (normalised source): the model's
+//	                        `closeNotify` = "once: send, record the result, mark the write side shut down
+//	                        WHATEVER the result; afterwards: return the recorded result" transcribes
+//	                        exactly these; an early return before `c.closeNotifySent = true`, a reset of
+//	                        the flag, … moves the fact
+//	apiCloseWriteStmts      the statements of Conn.CloseWrite
+//	apiLookAheadCond        condition of the last `if` of Conn.Read (the close-notify look-ahead), whose
+//	apiLookAheadBody        body is one more `c.readRecord()` returning `n, err`: the model's `lookAhead`
+//	                        runs only with c.input drained AND an alert record buffered in c.rawInput
+//	apiReadLoopCond         condition of the `for` of Conn.Read that fills c.input
+//	apiInterrupterCond      condition under which handshakeContext starts the interrupter goroutine
+//	                        (`ctx.Done() != nil`: every context that can be cancelled is watched)
 
 import (
 	"go/ast"
@@ -76,4 +88,34 @@ func emitConnAPI(e *emitter, p *pkg) {
 	e.boolean("apiInterrupterCloses", countStmt(p, "Conn.handshakeContext", "_ = c.conn.Close()") == 1)
 	cw := body(p, "Conn.CloseWrite")
 	e.boolean("apiCloseWriteNeedsHandshake", len(cw) > 0 && p.src(cw[0]) == "if !c.handshakeComplete() { return errEarlyCloseWrite }")
+	stmts := func(fn string) []string {
+		var out []string
+		for _, st := range body(p, fn) {
+			out = append(out, p.src(st))
+		}
+		return out
+	}
+	e.strList("apiCloseNotifyStmts", stmts("Conn.closeNotify"))
+	e.strList("apiCloseWriteStmts", stmts("Conn.CloseWrite"))
+	laCond, laBody, loopCond := "", "", ""
+	for _, st := range rb {
+		switch x := st.(type) {
+		case *ast.IfStmt:
+			laCond, laBody = p.src(x.Cond), p.src(x.Body)
+		case *ast.ForStmt:
+			if x.Cond != nil {
+				loopCond = p.src(x.Cond)
+			}
+		}
+	}
+	e.str("apiLookAheadCond", laCond)
+	e.str("apiLookAheadBody", laBody)
+	e.str("apiReadLoopCond", loopCond)
+	intCond := ""
+	for _, st := range body(p, "Conn.handshakeContext") {
+		if is, ok := st.(*ast.IfStmt); ok && strings.Contains(p.src(is.Body), "interruptRes := make(chan error, 1)") {
+			intCond = p.src(is.Cond)
+		}
+	}
+	e.str("apiInterrupterCond", intCond)
 }
